@@ -326,6 +326,8 @@ pub fn bitfield(args: TokenStream, input: TokenStream) -> TokenStream {
         #( #new_with_builder_chain )*
     };
     //println!("Expanded: {}", expanded.to_string());
+    #[cfg(feature = "verif_hooks")]
+    crate::verif_dump("bitfield", &struct_name.to_string(), &expanded.to_string());
     TokenStream::from(expanded)
 }
 
